@@ -494,4 +494,4 @@ SUITES = [QuoteSuite(), HushSuite(), ExecSuite()]
 def extra_obligations(tier):
     """the translated part of the model: regenerated from the current source and re-proved equal to what the theorems use"""
     from vlib import gen
-    return gen.obligations(only=["gen_hush_quote_is_the_model", "gen_board_constants_are_the_model", "gen_status_command_is_the_model", "gen_ub_env_is_the_model"])
+    return gen.obligations(only=["gen_hush_quote_is_the_model", "gen_board_constants_are_the_model", "gen_status_command_is_the_model", "gen_ub_env_is_the_model", "gen_exec0_and_test_are_the_model"])
